@@ -33,6 +33,9 @@ fn corpus() -> Vec<(String, Vec<Op>)> {
             Op::Update(UpdSpec { id: 1, payload: Some(PayloadSpec::new(PayloadKind::Utf8, 50, 7)), ..Default::default() }),
             Op::Crash, Op::Vacuum, Op::Reopen]),
         ("tiny-binary".into(), (0..12).map(|i| put(PayloadKind::Bin, 1 + i % 16, 100 + i as u64, 200 + i as i64)).chain([Op::Commit, Op::Reopen]).collect()),
+        ("presize-then-payloadless-commit".into(), vec![put(PayloadKind::Bin, 2000, 11, 100), put(PayloadKind::Ascii, 50, 12, 101), Op::Commit,
+            Op::BeginBatch { disable_auto_checkpoint: true, skip_sync: false, compression_level: 3, presize: 200_000 },
+            Op::Delete { id: 1 }, Op::Commit, Op::EndBatch, Op::Reopen]),
         ("empty-payloads".into(), vec![put(PayloadKind::Empty, 0, 1, 5), put(PayloadKind::Empty, 0, 2, 6), Op::Commit, put(PayloadKind::Zero, 100, 3, 7), Op::Reopen]),
     ]
 }
